@@ -20,6 +20,7 @@ EXPLANATION = (
     'every tree and token needs decoders and values and is not decided.'
     ' No default argument or module-level binding of the printer modules may evaluate the active language (it is set after import).'
     ' Third round: PTB writer templates and bracket escaping (R7.7, shared with C20); the json encoder writes only into records it created (R7.8).'
+    ' Fourth round: Prolog text decodes (R7.9: escaping steps of quoted atoms do not rewrite each other, the arguments of a Japanese term are comma-separated); the html category splitter accepts every feature spelling of the shipped inventories (R7.10).'
 )
 TRUSTED = ['CPython ast', 'sa/pysym.py path walker', 'rule table DESIGN.md C07']
 
